@@ -1290,11 +1290,28 @@ impl C03 {
 				if let Some(sent) = m.sent_obs.first() {
 					// documented limitation (listed finding): the manager snapshot used by the last restart predates PaymentSent
 					let stale = self.is_blind(*sent);
+					// the listed finding is the case in which the monitors S restarted from had already forgotten
+					// the resolved HTLC; a monitor that still tracks it must still know its preimage. An HTLC too
+					// small for a commitment output whose fulfil was never committed is forfeited when the stale
+					// reload closes the channel on chain: the restarted lineage then reports the failure truthfully.
+					let at_restart = sim.monitor_htlcs_at_restart.get(&S).cloned().unwrap_or_default();
+					let tracked = at_restart.iter().any(|(h, _)| *h == m.hash.0);
+					let tracked_without_preimage = at_restart.iter().any(|(h, pre)| *h == m.hash.0 && !*pre);
+					if stale && tracked_without_preimage && m.amt < sim.dust_floor_msat() {
+						self.stats.labels.insert("dust-htlc-forfeited-after-stale-restart".to_string());
+						return Ok(());
+					}
 					return Err(fail(
 						"contradictory-terminal-events",
 						format!("PaymentFailed ({:?}) for pay#{} at step {} after PaymentSent at step {} (restarts of S (step, snapshot step): {:?}; the running manager descends from a snapshot older than the PaymentSent: {})", reason, i, at, sent, self.restarts, stale),
 					)
-					.with_key(if stale { "contradictory-terminal-events/failed-after-sent/manager-snapshot-predates-sent" } else { "contradictory-terminal-events/failed-after-sent" }));
+					.with_key(if stale && !tracked {
+						"contradictory-terminal-events/failed-after-sent/manager-snapshot-predates-sent"
+					} else if stale {
+						"contradictory-terminal-events/failed-after-sent/monitor-still-tracked-the-htlc"
+					} else {
+						"contradictory-terminal-events/failed-after-sent"
+					}));
 				}
 				let first_batch_dup = self.first_batch_after_restart == Some(self.batch) && self.handled_batch.get(&(m.id.0, false)) == Some(&self.batch);
 				if first_batch_dup {
